@@ -195,3 +195,69 @@ class VariablePlainEval(EvalContract):
 
 
 CONTRACTS += [VariablePlainEval]
+
+
+# ---------------------------------------------------------------------------------------------------------------------
+# Result cache on, nothing covered yet (every coverage check misses): what the operators WRITE into their caches.
+# C05 needs the stored truth value to be the one the row is yielded with, and the stored binding to be part of that row.
+CacheKeys = z3.Function('CacheKeys', Z.Node, Z.I, Z.ArrIB)      # cache.keys as a set of ids (per node and cache)
+WHICH = {'_cache_': 0, 'right_cache': 1, 'left_cache': 2}
+
+
+class CacheWriteMixin:
+    caching_cases = (True,)
+    modes = ('sound',)
+
+    def getattr(self, eng, st, recv, name):
+        if isinstance(recv, Obj) and recv.kind == 'cache' and name == 'keys':
+            return [(st, Obj('keylist', {'ids': CacheKeys(recv.data['of'], z3.IntVal(WHICH[recv.data['which']]))}))]
+        return super().getattr(eng, st, recv, name)
+
+    def obj_cache_check(self, eng, st, recv, args, kwargs, node):
+        return [(st, FALSE_SV)]       # cold cache: the hit branches are the subject of the coherence obligations
+
+    def obj_cache_insert(self, eng, st, recv, args, kwargs, node):
+        d = args[0]
+        out = kwargs.get('output', args[1] if len(args) > 1 else None)
+        if not isinstance(d, D) or out is None:
+            raise OutOfSubset("cache.insert arguments", node)
+        st = st.clone()
+        st.ghost['last_insert'] = {'which': recv.data['which'], 'map': st.dicts[d.ref],
+                                   'label': eng.to_z3_bool(eng.truth(st, out)), 'line': node.lineno}
+        return [(st, NONE)]
+
+    def extra_yield_obligations(self, eng, st, v, ordinal, node):
+        ins = st.ghost.get('last_insert')
+        if ins is None:
+            return
+        n = st.ghost['self']
+        lbl = z3.Select(st.fields['is_false'], n)
+        row = st.dicts[v.ref]
+        eng.oblige(st, f"C05/cache-write@L{ins['line']}/stored-truth-value-is-the-yielded-one", ins['label'] == lbl,
+                   line=ins['line'])
+        eng.oblige(st, f"C05/cache-write@L{ins['line']}/stored-binding-is-part-of-the-yielded-row", row.extends(ins['map']),
+                   line=ins['line'])
+
+    def on_yield(self, eng, st, v, ordinal, node):
+        res = super().on_yield(eng, st, v, ordinal, node)
+        for s in res:
+            s.ghost.pop('last_insert', None)
+        return res
+
+
+FALSE_SV = C(False)
+
+
+class ComparatorCacheWrite(CacheWriteMixin, ComparatorEval):
+    props = ('C05', 'C01', 'C02')
+
+
+class ANDCacheWrite(CacheWriteMixin, ANDEval):
+    props = ('C05', 'C01', 'C02', 'C03')
+
+
+class ElseIfCacheWrite(CacheWriteMixin, ElseIfEval):
+    props = ('C05', 'C01', 'C02', 'C03')
+
+
+CONTRACTS += [ComparatorCacheWrite, ANDCacheWrite, ElseIfCacheWrite]
